@@ -23,7 +23,7 @@ P = {
  "C06": (True, "exploration", "bounded-exhaustive enumeration of pattern sets x value assignments x 16 value types (13 built-in, Empty, three user-defined Serializable) x match kinds x search methods, before and after a serialisation round trip; scale cases (haystacks/patterns/pattern counts beyond 65 535)",
   "Every function from the patterns of each small set to {0,1,MAX} (signed: MIN,-1,0,MAX) is built with build_with_values and every match of every haystack is checked against the registered value; bare patterns must carry their position; 256/128-pattern index boundary for u8/i8.",
   "Bounded sets (<= 3 patterns). Table-level values for all haystacks come from C01's E1.", "§3 C06"),
- "C07": (True, "model_checking", "closure exploration of the raw table of every automaton (all reachable states x all labels, fail links, output chains) with a bounds-checked interpreter, for built and deserialised automata; all enumeration sweeps executed with std's unsafe-precondition checks on; UTF-8 decoder swept over all 1,112,064 scalar values",
+ "C07": (True, "model_checking", "closure exploration of the raw table of every automaton (all reachable states x all labels, fail links, output chains) with a bounds-checked interpreter, for built and deserialised automata; all enumeration sweeps (u32 values and the 16-type value matrix incl. the zero-sized Empty) executed with std's unsafe-precondition checks on; UTF-8 decoder swept over all 1,112,064 scalar values",
   "For every automaton of the population every index the search loop can compute from a reachable state is enumerated and shown in range, for all three kinds, built and restored; the iterators and the decoder are executed under precondition checks on the enumerated haystacks and on every Unicode scalar value.",
   "Closure covers the tables; iterator-level UB is covered on executed paths only (precondition checks; Miri on a reduced enumeration in the thorough tier).", "§3 C07"),
  "C08": (True, "model_checking", "product exploration (bisimulation at character granularity) of the char-wise and the byte-wise automaton built from the same patterns, every step on the crates' own transition functions; bounded-exhaustive differential enumeration of all search methods",
@@ -44,7 +44,7 @@ P = {
  "C13": (True, "model_checking", "reference-free ranking analysis on the explored graph of every automaton: closure of the root under child edges (all labels) and fail links; every fail chain reaches the root and every output chain ends; standard kind: longest-path worklist over the real transition graph with the hop counts measured on the crate's own transition loop shows phi(s) = max over paths of sum(fail hops - 1) <= 0, which is equivalent to the 2n bound for that automaton",
   "Termination and the 2n bound are decided for every haystack of each explored automaton (exact, not a sufficient condition); a violation comes with a shortest witness haystack measured again on the real iterator; E2 sweeps also measure hops <= n per haystack; a hang inside library code is turned into a violation by the watchdog.",
   "Designed population; the hop counter is a cfg-guarded hook in the transition loops.", "§3 C13, §11.3"),
- "C14": (True, "model_checking", "all n! registration orders of every small pattern set (byte-identical images), double builds, all merges of next() call sequences of 2-3 iterators, and exhaustive DFS (shuttle) over all byte-pull interleavings of 2-3 threads sharing one automaton",
+ "C14": (True, "model_checking", "all n! registration orders of every small pattern set (byte-identical images), double builds, all merges of next() call sequences of 2-3 iterators, all orders of whole searches over two automata on one thread, all relocation histories (search A in a slot, swap B into the same memory, search B) over a small universe of automata x haystack pairs against brute force, and exhaustive DFS (shuttle) over all byte-pull interleavings of 2-3 threads sharing one automaton",
   "Order independence is enumerated over all permutations; purity over all sequential merges; the thread clause over every interleaving of source pulls under a controlled scheduler (the automaton has no synchronisation, so the byte source is the only seam).",
   "loom/shuttle see no scheduling points inside daachorse; yields are injected in the byte source. Unsynchronised writes are ruled out by the image-unchanged oracle and a Sync/Send compile probe.", "§3 C14"),
  "C15": (True, "model_checking", "for every automaton: states reachable through the crate's own child function over all labels, vs 1 + distinct non-empty prefixes of the reportable patterns computed from the pattern list, vs num_states(); heap/element lower bounds",
